@@ -32,7 +32,7 @@ func init() {
 		DoesNotCover: "Torn-prefix lengths and concurrent readers are not enumerated; that WriteFile is atomic enough for the backup itself is assumed.",
 	}, runC22)
 	register("C23", propMeta{
-		Explanation:  "(R1) In readAndRestoreBlock every success (nil) return is dominated by a successful checksum verification of the bytes just read, or hands over to restoreFromCow, whose own success returns are dominated by copying checksum-verified backup bytes into the caller's buffer; (R2) every reader of block bytes (findOneFileRegion, updateFileBlockRegion) obtains them through readAndRestoreBlock, which is the only caller of the direct-I/O read; (R3) checkCow returns restorable data only when unmarshalData accepted it. (R4) the verifier itself: every success return of unmarshalData lies behind the equality of crc32.ChecksumIEEE(block[:dataLen]) with the stored trailer, or behind isZeroData applied to the WHOLE block.",
+		Explanation:  "(R1) In readAndRestoreBlock every success (nil) return is dominated by a successful checksum verification of the bytes just read, or hands over to restoreFromCow, whose own success returns are dominated by copying checksum-verified backup bytes into the caller's buffer; (R2) every reader of block bytes (findOneFileRegion, updateFileBlockRegion) obtains them through readAndRestoreBlock, which is the only caller of the direct-I/O read; (R3) checkCow returns restorable data only when unmarshalData accepted it. (R4) the verifier itself: every success return of unmarshalData lies behind the equality of crc32.ChecksumIEEE(block[:dataLen]) with the stored trailer, or behind isZeroData applied to the WHOLE block. (R5) checkCow declares a backup present-but-empty only when it has zero bytes.",
 		DoesNotCover: "CRC32 collision resistance; corruption of a block that is all zeros (documented sparse-block optimisation).",
 	}, runC23)
 	register("C24", propMeta{
